@@ -1,6 +1,7 @@
 package main
 
 import (
+	"context"
 	"encoding/json"
 	"flag"
 	"fmt"
@@ -36,6 +37,17 @@ func newUnit(sh *Shared, cs *ContractSet, fn *ssa.Function) *Unit {
 		notes: map[string]int{}, trustedUsed: map[string]int{}, inlined: map[string]int{}, declared: map[string]bool{}, oblNames: map[string]int{},
 		logical: map[string]envEntry{}, features: map[string]bool{}, libAssumed: map[string]int{}, unknownCalls: map[string]int{},
 		contractsUsed: map[string]int{}, typeInvUsed: map[string]int{}, termOrigin: map[string]string{}, guardedTerm: map[string]guardedVal{}, epochAlloc: map[int]Term{}}
+	if u.contract == nil {
+		if ic, alias := ifaceContractFor(sh, cs, fn); ic != nil {
+			// behavioural subtyping: the implementation is verified against the interface method's contract
+			cp := *ic
+			cp.Trusted = false
+			cp.Reason = ""
+			u.contract = &cp
+			u.paramAlias = alias
+			u.implOf = ic.Key
+		}
+	}
 	if u.contract != nil {
 		u.props = u.contract.Props
 		u.contract.Used = true
@@ -65,11 +77,18 @@ func main() {
 	timeout := flag.Int("timeout", 0, "per-solver timeout in seconds (default 20 quick / 120 thorough)")
 	evidenceDir := flag.String("evidence", "", "directory for evidence files (default <verif>/evidence)")
 	listOnly := flag.Bool("list", false, "list obligations without discharging")
+	replayFile := flag.String("replay", "", "re-run the counter-example recorded in this replay file and exit")
+	overlayPatch := flag.String("overlay-patch", "", "verify /repo with this unified diff applied in memory (used by the must-fail corpus)")
+	replayDir := flag.String("replaydir", "", "directory for replay files (default <verif>/replays)")
+	noMutants := flag.Bool("no-mutants", false, "thorough tier: skip the must-fail corpus")
 	verbose := flag.Bool("v", false, "verbose")
 	jobs := flag.Int("j", 16, "parallel solver jobs")
 	flag.Parse()
 	seedStr = fmt.Sprint(*seed)
 	t0 := time.Now()
+	if *replayFile != "" {
+		os.Exit(rerunReplay(*repo, *replayFile))
+	}
 	if *timeout == 0 {
 		*timeout = 20
 		if *tier == "thorough" {
@@ -95,7 +114,16 @@ func main() {
 	for _, wmsg := range cs.Warnings {
 		fmt.Println("WARNING:", wmsg)
 	}
-	ld, err := loadRepo(*repo, scratch, "verif", nil)
+	var overlay map[string][]byte
+	if *overlayPatch != "" {
+		overlay, err = overlayFromPatch(*repo, *overlayPatch, scratch)
+		if err != nil {
+			fmt.Println("UNDECIDED: cannot apply overlay patch:", err)
+			os.RemoveAll(scratch)
+			os.Exit(2)
+		}
+	}
+	ld, err := loadRepo(*repo, scratch, "verif", overlay)
 	if err != nil {
 		fmt.Println("UNDECIDED: load error:", err)
 		os.RemoveAll(scratch)
@@ -257,10 +285,51 @@ func main() {
 		}()
 	}
 	owg.Wait()
+	// thorough tier: every discharged obligation is re-checked by a second solver (z3 4.8.12), individually
+	crossChecked, crossDisagree := 0, 0
+	if *tier == "thorough" {
+		var cwg sync.WaitGroup
+		var mu sync.Mutex
+		csem := make(chan struct{}, *jobs)
+		for _, o := range obls {
+			if o.Status != "discharged" || o.Cover {
+				continue
+			}
+			o := o
+			cwg.Add(1)
+			csem <- struct{}{}
+			go func() {
+				defer cwg.Done()
+				defer func() { <-csem }()
+				file := filepath.Join(smtDir, fmt.Sprintf("x%06d.smt2", o.id))
+				if err := os.WriteFile(file, []byte(o.smtFile(*timeout*1000)), 0o666); err != nil {
+					return
+				}
+				second := solvers[1]
+				if strings.HasPrefix(o.Solver, "z3-new") == false {
+					second = solvers[0]
+				}
+				res := runSolver(context.Background(), second, file, 20)
+				mu.Lock()
+				switch res.status {
+				case "unsat":
+					crossChecked++
+					o.CrossSolver = second.name
+				case "sat":
+					crossDisagree++
+					o.CrossSolver = second.name + " DISAGREES (sat)"
+				}
+				mu.Unlock()
+			}()
+		}
+		cwg.Wait()
+	}
 	tSolve := time.Since(t0) - tLoad - tGen
 
 	rep := &Report{Verif: *verif, Repo: *repo, Tier: *tier, Seed: *seed, Props: props, Results: results, Obls: obls, CS: cs,
-		TLoad: tLoad, TGen: tGen, TSolve: tSolve, T0: t0, EvidenceDir: *evidenceDir, Verbose: *verbose, Timeout: *timeout, Shared: sh}
+		TLoad: tLoad, TGen: tGen, TSolve: tSolve, T0: t0, EvidenceDir: *evidenceDir, Verbose: *verbose, Timeout: *timeout, Shared: sh,
+		CrossChecked: crossChecked, CrossDisagree: crossDisagree,
+		ReplayDir: *replayDir, NoMutants: *noMutants || *overlayPatch != "", Overlay: overlay, Jobs: *jobs}
 	code := rep.finish()
 	os.RemoveAll(scratch)
 	os.Exit(code)
